@@ -18,7 +18,7 @@ import (
 	"github.com/ipfs/go-cid"
 	"github.com/ipld/go-ipld-prime/datamodel"
 	cidlink "github.com/ipld/go-ipld-prime/linking/cid"
-	"github.com/multiformats/go-multihash"
+	"github.com/multiformats/go-multicodec"
 	"github.com/rpcpool/yellowstone-faithful/ipld/ipldbindcode"
 	"github.com/rpcpool/yellowstone-faithful/zzverif/vh"
 )
@@ -33,12 +33,21 @@ func Crc(b []byte) uint64 { return crc64.Checksum(b, crcTab) }
 func Fnv(b []byte) uint64 { h := fnv.New64a(); h.Write(b); return h.Sum64() }
 
 func mkCid(b []byte) cid.Cid {
-	sum := sha256.Sum256(b)
-	mh, err := multihash.Encode(sum[:], multihash.SHA2_256)
+	// only direct dependencies of the repository are imported here: with -mod=mod the go tool would
+	// otherwise rewrite go.mod (an `// indirect` marker) - nothing may ever be written into the repository
+	c, err := cid.V1Builder{Codec: uint64(multicodec.DagCbor), MhType: uint64(multicodec.Sha2_256), MhLength: -1}.Sum(b)
 	if err != nil {
 		panic("VERIF-HARNESS-BUG: " + err.Error())
 	}
-	return cid.NewCidV1(cid.DagCBOR, mh)
+	return c
+}
+
+// CidOfBytes: CIDv1 / dag-cbor / sha2-256 of the bytes.
+func CidOfBytes(b []byte) cid.Cid { return mkCid(b) }
+
+// SortCids sorts by key string (a deterministic order independent of map iteration).
+func SortCids(cs []cid.Cid) {
+	sort.Slice(cs, func(i, j int) bool { return cs[i].KeyString() < cs[j].KeyString() })
 }
 
 // Payload is one payload split into frames.
@@ -92,6 +101,14 @@ func SplitRandom(rng *vh.Rng, data []byte, n int) [][]byte {
 	return out
 }
 
+// nonNil: an empty chunk is an empty byte string, never a CBOR null
+func nonNil(b []byte) []byte {
+	if b == nil {
+		return []byte{}
+	}
+	return b
+}
+
 func (p *Payload) N() int { return len(p.Chunks) }
 
 func (p *Payload) Hash() uint64 {
@@ -124,7 +141,7 @@ func (p *Payload) Build(rng *vh.Rng) {
 	p.Frames = make([]*ipldbindcode.DataFrame, n)
 	p.Cids = make([]cid.Cid, n)
 	for i := n - 1; i >= 0; i-- {
-		f := &ipldbindcode.DataFrame{Kind: 6, Index: PInt(i), Data: p.Chunks[i]}
+		f := &ipldbindcode.DataFrame{Kind: 6, Index: PInt(i), Data: nonNil(p.Chunks[i])}
 		if !p.NoTotal {
 			f.Total = PInt(n)
 		}
@@ -182,7 +199,7 @@ func Links(f *ipldbindcode.DataFrame) []cid.Cid {
 }
 
 func Clone(f *ipldbindcode.DataFrame) *ipldbindcode.DataFrame {
-	g := &ipldbindcode.DataFrame{Kind: f.Kind, Data: append([]byte(nil), f.Data...)}
+	g := &ipldbindcode.DataFrame{Kind: f.Kind, Data: append([]byte{}, f.Data...)}
 	if f.Hash != nil && *f.Hash != nil {
 		g.Hash = PInt(**f.Hash)
 	}
